@@ -183,6 +183,12 @@ func mapStream(script []sx.Step, p, b, procs, failAt, closeAfter int, expire boo
 			got = append(got, v)
 		}
 		ms.Close()
+		// "by the time the returned stream's Close returns": checked in the same atomic step
+		hx.Atomically(func() {
+			if src.Closes == 0 {
+				hx.Fail("source/not-closed-when-Close-returned", "Close of the mapped stream has returned but the source stream has not been closed yet")
+			}
+		})
 		hx.Quiesce()
 		if l := hx.Live(); len(l) > 0 {
 			hx.Fail("goroutine-left-after-Close", "after Close returned these threads are still alive: %v", l)
